@@ -328,6 +328,11 @@ func c11Gen(t *rapid.T) c11Case {
 func TestVerif_C11(t *testing.T) {
 	defer vfStats.dump()
 	vfStats.Property = "C11"
+	if !vfDictSweep(t, "C11", "gen", vfDictText(), func(tok string) []c11Case {
+		return []c11Case{{X: vfB(tok), Via: "detect"}, {X: vfB(tok + " plain ascii text"), Via: "detect"}, {X: vfB(tok + " caf\xc3\xa9"), Via: "detect"}, {X: vfB(tok + " caf\xe9"), Via: "detect"}, {X: vfB(tok + " \x93q\x94"), Via: "plain"}}
+	}, c11Check, "text opening with each printable literal: alone, + ASCII, + UTF-8, + Latin-1, + windows-1252") {
+		return
+	}
 	if vfOnlySub("enum") {
 		vfRun(t, vfSub[c11Case]{Prop: "C11", Name: "enum", Check: c11Check})
 		if !vfReplayMode() && !t.Failed() {
